@@ -182,38 +182,40 @@ reg("C20", BE + "every split of a base grammar over 2-3 files (chain, fan-out, "
 
 # families added after seeded faults were missed (DESIGN.md section 0)
 ADD = {
+    "C07": " Also a pool with string terminals of 9-11 characters.",
+    "C01": " Also two medium grammars (more than ten LR states) x every input of length 11-12 (thorough 11-14).",
     "C02": " Also the space r4 (one production with four right-hand-side "
            "symbols + up to two short ones over one terminal).",
     "C03": " Also: reading (counting, indexing, iterating, get_first_tree) "
            "must not change the forest; forests of a parser with an "
-           "accept-all dynamic filter.",
+           "accept-all dynamic filter. Long-input family as in C01 (derivation counts); seven-operator big-count grammar.",
     "C05": " Also a template family of 912 grammars around the "
            "LR(1)-but-not-LALR(1) core (same-kernel states that must stay "
            "apart, nullable tails), and tables built on one shared Grammar "
-           "object in both orders.",
+           "object in both orders. Also a family of 2970 grammars with twelve alternatives (two-digit production ids) and SLR/LALR tables built on one shared Grammar object in both orders.",
     "C06": " Also tables=SLR for up to 3 operators, zero-based priorities, "
-           "rule-level and production-level meta-data mixed.",
+           "rule-level and production-level meta-data mixed. Priorities numbered from 300.",
     "C09": " Also rules defined in two parts, @action decorators on rules "
            "with groups/repetitions, and the tree route on a parser with an "
-           "accept-all dynamic filter.",
+           "accept-all dynamic filter. A second, partial action table on a Grammar object used before.",
     "C10": " Also a LAYOUT-rule family (block comments parsed token by "
            "token) against the language with the layout written out.",
-    "C11": " Also rows where the layout is given by a LAYOUT rule.",
+    "C11": " Also rows where the layout is given by a LAYOUT rule. Two fixed medium grammars with several GLR heads at the first error.",
     "C12": " Six grammar sets (import chain, lexical overlap, .pge hints, "
-           "LAYOUT rule).",
+           "LAYOUT rule). Truncation sweep over every byte length of a complete cache; non-ASCII terminal texts.",
     "C13": " Also all pairs of repetitions over the same base, and group "
-           "shapes under a rule decorator.",
+           "shapes under a rule decorator. Names containing the helper suffixes (_0, _1, _opt).",
     "C14": " Also ws sets of regex-special characters, construction-outcome "
-           "comparison, and the comment LAYOUT with terminal priorities.",
+           "comparison, and the comment LAYOUT with terminal priorities. Fillers of 33-300 layout characters.",
     "C15": " Now 25 events and four grammars (lexical overlap with a token "
            "spanning a raising position; block comments that make the LAYOUT "
            "sub-parser abort a parse); probes run in rotated order.",
     "C16": " Also modular grammars with same-named terminals in two files, "
-           "and calculated vs cache-loaded forest order in every process.",
+           "and calculated vs cache-loaded forest order in every process. Terminal names of 50 characters differing in the last one.",
     "C17": " Also a lexeme map with different terminal priorities and rows "
            "with a pass-through custom_token_recognition.",
     "C18": " Also a LAYOUT-rule variant, {dynamic} on the rule level, marks "
-           "on the atom production, an LR reject family.",
+           "on the atom production, an LR reject family. EMPTY productions marked dynamic.",
     "C19": " Upper-case letter in the text alphabet; two-string keyword family.",
     "C20": " Also dotted import paths, override x repetition, and a family of "
            "hand-flattened special cases (root-level KEYWORD / LAYOUT, "
